@@ -58,6 +58,11 @@ var markBodies = []struct {
 	// generated blocks without arguments of their own: only their number depends on the marked value
 	{"dynamic \"blk\" {\n  for_each = s\n  content {}\n}\n", kList},
 	{"dynamic \"blk\" {\n  for_each = s\n  content {\n    inner {\n      z = p\n    }\n  }\n}\n", kList},
+	// a STATIC block nested in the generated block refers to the iterator
+	{"dynamic \"blk\" {\n  for_each = s\n  content {\n    inner {\n      z = blk.value\n    }\n  }\n}\n", kList},
+	{"dynamic \"blk\" {\n  for_each = s\n  content {\n    inner {\n      z = \"${blk.key}${blk.value}\"\n    }\n    inner {\n      z = q\n    }\n  }\n}\n", kMap},
+	// a nested dynamic block whose for_each derives from the outer (marked) iterator
+	{"dynamic \"blk\" {\n  for_each = s\n  content {\n    dynamic \"inner\" {\n      for_each = [blk.value]\n      content {\n        z = inner.value\n      }\n    }\n  }\n}\n", kList},
 }
 
 // bodies with LABELLED blocks, decoded with BlockMapSpec / BlockObjectSpec
